@@ -4,7 +4,7 @@ SPEC = dict(
     lean_modules=["Qx.Props.C01Xml", "Qx.Props.C01Scalar", "Qx.Props.C01Codec"],
     props_files=["lean/Qx/Props/C01Xml.lean", "lean/Qx/Props/C01Scalar.lean", "lean/Qx/Props/C01Codec.lean"],
     drivers=["qxdriver_c01"],
-    translators=["ns_constants.py"],
+    translators=["ns_constants.py", "codec_literals.py"],
     harnesses=[
         dict(name="xmllayer", asan=False, driver="qxdriver_c01"),
         dict(name="scalars", asan=False, driver="qxdriver_c01"),
@@ -32,7 +32,7 @@ SPEC = dict(
     level_text="Theorems for all strings/values: escaping is invertible and metacharacter-free (no markup injection), parse(render t) = t on "
                "well-formed trees and structure-independent of payloads on all trees, integer/boolean/base64/date-time round trips over "
                "the whole lexical range, and one generic decode(encode v) = v for every well-formed schema instantiated (wf_<Class> by "
-               "decide) for the modelled classes; each tier tied to the real Qt/qxmpp functions by correspondence.",
+               "decide) for the modelled classes, whose tag/attribute literals are tied to the source by the codec_literals translator; each tier tied to the real Qt/qxmpp functions by correspondence.",
     level_note="Proved about hand-written models of Qt's writer/reader, the scalar helpers and per-class schemas; the model-to-code tie is "
                "differential. Classes without a schema are NOT proved (covered by the own-form/injection oracle on the test corpus).",
     design_ref="5.1",
